@@ -7,6 +7,7 @@ AS_H = 'src/tbb/arena_slot.h'
 TD_CPP = 'src/tbb/task_dispatcher.cpp'
 PF_H = 'include/oneapi/tbb/parallel_for.h'
 MB_H = 'src/tbb/mailbox.h'
+SC_H = 'src/tbb/scheduler_common.h'
 CO_H = 'include/oneapi/tbb/collaborative_call_once.h'
 ETS_H = 'include/oneapi/tbb/enumerable_thread_specific.h'
 FE_CPP = 'src/tbbmalloc/frontend.cpp'
@@ -677,6 +678,31 @@ MUTANTS = [
         (ETS_H, "        if( s.empty() ) {\n            if( s.claim(k) ) {\n                s.ptr = found;\n                return found;\n            }\n        }", "        if( s.empty() ) {\n            s.ptr = found;\n            if( s.claim(k) ) {\n                return found;\n            }\n        }")]),
     dict(name='c19-root-store', prop='C19', clause='D5', edits=[
         (ETS_H, "                if( my_root.compare_exchange_strong(new_r, a) ) break;", "                if( my_root.load(std::memory_order_relaxed) == new_r ) { my_root.store(a, std::memory_order_release); break; }")]),
+    # ---------------------------------------------------------------- C20
+    dict(name='c20-notify-load-store', prop='C20', clause='D1', edits=[
+        (SC_H, "        return m_stack_state.exchange(stack_state::notified) == stack_state::suspended;",
+         "        bool r = m_stack_state.load(std::memory_order_acquire) == stack_state::suspended;\n        m_stack_state.store(stack_state::notified, std::memory_order_release);\n        return r;")]),
+    dict(name='c20-finalize-never-resumes', prop='C20', clause='D1', edits=[
+        (SC_H, "        if (m_prev_suspend_point && m_prev_suspend_point->m_stack_state.exchange(stack_state::suspended) == stack_state::notified) {\n            r1::resume(m_prev_suspend_point);\n        }",
+         "        if (m_prev_suspend_point) {\n            m_prev_suspend_point->m_stack_state.exchange(stack_state::suspended);\n        }")]),
+    dict(name='c20-finalize-always-resumes', prop='C20', clause='D1', edits=[
+        (SC_H, "        if (m_prev_suspend_point && m_prev_suspend_point->m_stack_state.exchange(stack_state::suspended) == stack_state::notified) {",
+         "        if (m_prev_suspend_point && m_prev_suspend_point->m_stack_state.exchange(stack_state::suspended) != stack_state::active) {")]),
+    dict(name='c20-resume-push-both', prop='C20', clause='D2', edits=[
+        ('src/tbb/task.cpp', "            a.my_resume_task_stream.push(&sp->m_resume_task, random_lane_selector(sp->m_random));\n        } else {",
+         "            a.my_resume_task_stream.push(&sp->m_resume_task, random_lane_selector(sp->m_random));\n        }\n        {")]),
+    dict(name='c20-resume-unconditional', prop='C20', clause='D2', edits=[
+        ('src/tbb/task.cpp', "    if (sp->try_notify_resume()) {\n        // TODO: remove this work-around", "    sp->try_notify_resume();\n    {\n        // TODO: remove this work-around")]),
+    dict(name='c20-action-not-cleared', prop='C20', clause='D3', edits=[
+        ('src/tbb/task.cpp', "        __TBB_ASSERT(td->my_post_resume_arg == nullptr, \"The post resume argument should not be set\");\n    }\n    td->clear_post_resume_action();",
+         "        __TBB_ASSERT(td->my_post_resume_arg == nullptr, \"The post resume argument should not be set\");\n    }\n    if (td->my_post_resume_action != post_resume_action::notify) td->clear_post_resume_action();")]),
+    dict(name='c20-recall-no-action', prop='C20', clause='D3', edits=[
+        (TDH, "        m_thread_data->set_post_resume_action(post_resume_action::notify, get_suspend_point());\n        internal_suspend();", "        internal_suspend();")]),
+    dict(name='c20-notify-on-first', prop='C20', clause='D4', edits=[
+        ('src/tbb/thread_control_monitor.h', "        if (++my_notify_calls == 2) {", "        if (++my_notify_calls >= 1) {")]),
+    dict(name='c20-stack-state-store-elsewhere', prop='C20', clause='D1', edits=[
+        (SC_H, "        __TBB_ASSERT(m_stack_state.load(std::memory_order_relaxed) == stack_state::suspended, nullptr);\n        m_stack_state.store(stack_state::notified, std::memory_order_relaxed);",
+         "        __TBB_ASSERT(m_stack_state.load(std::memory_order_relaxed) == stack_state::suspended, nullptr);\n        m_stack_state.store(stack_state::active, std::memory_order_relaxed);")]),
 ]
 
 BENIGN = [
